@@ -32,6 +32,21 @@ func (vc *VC) runeLenTerm(r Term) Term {
 }
 
 func (vc *VC) stdlibModel(name string, c *ssa.CallCommon, args []Val, st *State, reach Term, rt types.Type, pos token.Pos) (Val, bool) {
+	if name == "fmt.Sprintf" && len(c.Args) == 2 {
+		// fmt.Sprintf("%v", x): the default rendering of one value is a deterministic function of the value
+		// (named FmtV in contracts); nothing else is assumed about it
+		if k, ok := c.Args[0].(*ssa.Const); ok && k.Value != nil && k.Value.ExactString() == `"%v"` {
+			if n, _, isConst := constLenSlice(c.Args[1]); isConst && n == 1 {
+				hn, sort := vc.memName(types.NewInterfaceType(nil, nil))
+				elem := app("select", app("select", vc.heapGet(st, hn, sort), slRef(args[1].t)), slOff(args[1].t))
+				f := vc.declareFun(sym("spec.FmtV"), []string{"Dyn"}, "Str")
+				r := app(f, elem)
+				vc.addAssume("true", vc.typeFacts(nil, rt, r, 0))
+				vc.assume("assumed deterministic, total and free of side effects (external): fmt.Sprintf(\"%v\", x), named FmtV(x)")
+				return Val{t: r, typ: rt}, true
+			}
+		}
+	}
 	switch name {
 	case "math/bits.Mul64":
 		hi := vc.freshConst("mulhi", "Int")
